@@ -45,9 +45,13 @@ theorem sleeping_wake_writes_one (hr : Reach d itw s) (hi : s.wk.itw = true) (hp
     refine ⟨r, w, rfl, ?_⟩
     simp [step, hp, userPc, hsg, wakeByRef, hsl, hi, hstream, Step.bind]
 
-/-- **sleeping_wake_polls_again (the task is polled).**  Every callback that is not a cancellation
-polls the tasks before it answers: so once the host delivers the completed wake-up read (its
-obligation after a WAIT on a set with a ready member), the woken task is polled again. -/
+/-- **sleeping_wake_polls_again (the task is polled) — guest half only.**  Every callback that is not a
+cancellation polls the tasks before it answers.  That the woken task IS polled again additionally needs the
+HOST to call the task back: after a WAIT on a set one of whose members (here: the wake-up stream's reader,
+whose read the write completed) has an event, the component-model host must deliver that event (or
+EVENT_CANCEL).  This liveness obligation of the host is an assumption (Appendix B), not a theorem; what is
+proved is that the item is written to a read that is pending and joined to the set the task waits on
+(`sleeping_wake_writes_one`, `Props.C22.set_in_sync`) and that the callback the host then makes polls. -/
 theorem every_callback_polls (hr : Reach d itw s) (hs : step s l = .ok s' evs) :
     (∀ code, Answers s s' code → s.polled = true) ∧
     (Exits s s' → s'.ev0 ≠ Limits.eventCancel → s.polled = true) := by
